@@ -23,6 +23,8 @@ IDENT0 = "abcdefghijklmnopqrstuvwxyzABCDEFGHIJKLMNOPQRSTUVWXYZ_"
 IDENTN = IDENT0 + "0123456789"
 FAM_DELIMS = " ;(\n\t=,"
 COMMENT_BODY = "a \t\n*/"
+LC_BODY = "a ?/\\\n"
+Q_BODY = "a\\?/'\"\n"
 
 
 def chunks(tier, N):
@@ -38,6 +40,15 @@ def chunks(tier, N):
             out.append(dict(n=L + 1, g=-1, fam="ident", first=first))
     for L in ((3, 4) if tier == "quick" else (3, 4, 5, 6)):
         out.append(dict(n=L + 4, g=-1, fam="comment"))
+    #   linecomment: '//' + body over {a, blank, ?, /, backslash, newline} (splices of both spellings inside and after a comment)
+    #   quoted: a quote + body over {a, backslash, ?, /, the two quotes, newline} (escapes spelled with trigraphs, splices)
+    for L in ((4, 5) if tier == "quick" else (4, 5, 6, 7)):
+        for c0 in LC_BODY:
+            out.append(dict(n=L + 2, g=-1, fam="linecomment", first=c0))
+    for L in ((3, 4, 5) if tier == "quick" else (3, 4, 5, 6)):
+        for q in "'\"":
+            for c0 in Q_BODY:
+                out.append(dict(n=L + 1, g=-1, fam="quoted", quote=q, first=c0))
     return out
 
 
@@ -181,13 +192,17 @@ def run_chunk(chunk, ctx):
         f0 = "abcdefghijklmnopqrstuvwxyz" if chunk["first"] == "lower" else "ABCDEFGHIJKLMNOPQRSTUVWXYZ_"
         chars = ([declare(Var("c0", map(ord, f0)))] + [declare(Var(f"c{i}", map(ord, IDENTN))) for i in range(1, n - 1)] +
                  [declare(Var(f"c{n - 1}", map(ord, FAM_DELIMS)))])
+    if fam == "linecomment":
+        chars = (["/", "/", declare(Var("c2", [ord(chunk["first"])]))] + [declare(Var(f"c{i}", map(ord, LC_BODY))) for i in range(3, n)])
+    if fam == "quoted":
+        chars = ([chunk["quote"], declare(Var("c1", [ord(chunk["first"])]))] + [declare(Var(f"c{i}", map(ord, Q_BODY))) for i in range(2, n)])
     if fam == "comment":
         chars = (["/", "*"] + [declare(Var(f"c{i}", map(ord, COMMENT_BODY))) for i in range(2, n - 2)] + ["*", "/"])
     line0, col0 = z3.Int("line0"), z3.Int("col0")
     ex.solver.add(line0 >= 1, col0 >= 1)
     col = Collector(HNAME, seed=ctx["seed"], sample_rate=ctx.get("sample_rate", 0.05))
     if fam:
-        col.sample_rate = 1.0 if fam == "ident" else 0.2
+        col.sample_rate = 1.0 if fam == "ident" else (0.2 if fam == "comment" else 0.03)
     cur = {}
 
     def out(prop, fp, what, cond):
